@@ -8,8 +8,17 @@ claim('C12',
       'engine are trusted, every model is replayed natively.',
       'symbolic execution of the real code with z3 (minisym), validity queries per path', 'DESIGN.md §4 C12')
 _todo = ('check not built yet in this round; see DESIGN.md §8 build order')
-for _p in ['C01', 'C02', 'C03', 'C04', 'C05', 'C06', 'C07', 'C08', 'C09', 'C10', 'C11', 'C13', 'C14', 'C15', 'C16', 'C17',
-           'C18', 'C20']:
+for _p in ['C01', 'C02', 'C03', 'C04', 'C05', 'C06', 'C07', 'C08', 'C09', 'C10', 'C11', 'C13', 'C14', 'C15', 'C16', 'C17', 'C20']:
     na(_p, _todo)
 na('C19', 'PYTHONHASHSEED / process effects live in CPython C code and start-up, not reachable by symbolic execution of '
           'chython; modelling set order as arbitrary would over-approximate and raise false alarms (DESIGN.md C19)')
+claim('C18',
+      'Finite domain decided by the solver: table consistency (abundance/mass key sets, codec reference tables, 5-bit pack '
+      'offset) as single validity queries over symbolic (element number, isotope); symbol/number lookups, reference '
+      'isotope, atomic mass and valence-rule compilation with the element number realised (one path per value, '
+      'exhaustion certified by unsat); the real matcher bit-layout builder executed on symbolic isotope/charge/H/radical '
+      'as bit-vectors: every word < 2^64 and the attribute word injective.',
+      'Tables are read from the classes / .pyx text of the current tree; numerical values of masses are not judged; 19 '
+      'elements whose MDL reference isotope is not a tabulated isotope are listed in known_findings.json.',
+      'z3 validity queries over tables extracted from source + symbolic execution of the real code (minisym)',
+      'DESIGN.md §4 C18')
